@@ -99,7 +99,7 @@ fn reply_is_end(r: &Reply) -> bool {
 /// Builds a compliant client script of 1..k requests with position-independent noise after the
 /// preamble and phase-specific noise where the consuming parser is known.
 pub fn gen_plan(cx: &mut Ctx, o: &PlanOpts) -> Plan {
-    let k = 1 + cx.ch.weighted(&[3, 3, 2, 1]).min(o.max_reqs - 1);
+    let k = if o.max_reqs > 4 { cx.probe("long_lived_connection"); cx.ch.range(5, o.max_reqs) } else { 1 + cx.ch.weighted(&[3, 3, 2, 1]).min(o.max_reqs - 1) };
     let max_conns = cx.ch.one_of(&[1usize, 2, 10, 100]);
     // buffer size first: the 24-byte minimum needs pairs of at most 11 bytes
     let bufsize = if o.small_buf_bias {
@@ -506,6 +506,25 @@ async fn h_write(w: &mut StreamWriter<SimWrite>, st_world: &Shared, idx: usize, 
             }
         }
     }
+    if !flush && lock(st_world).cx.ch.chance(1, 8) {
+        // closing a writer (AsyncWriteExt::close) ends nothing on the wire: stream ends belong to the request's
+        // epilogue, and the writer stays usable for the exclusion rules
+        let before = { let wl = lock(st_world); (wl.log.len(), wl.write_calls) };
+        let r = poll_fn(|cx| Pin::new(&mut *w).poll_close(cx)).await;
+        let mut wl = lock(st_world);
+        wl.cx.probe("writer_poll_close");
+        if let Err(e) = r {
+            let k = kind_name(&e);
+            let rp = wl.read_pos;
+            wl.handler_log[idx].errors.push((k, "close".into(), rp));
+            return Err(e);
+        }
+        if wl.knobs.write_pending == 0 && wl.knobs.spurious_polls == 0 && (wl.log.len(), wl.write_calls) != before {
+            // (with Pending results other sub-tasks may have written in between: compared only on calm transports)
+            let d = format!("poll_close of a StreamWriter wrote to the transport ({} bytes, {} calls)", wl.log.len() - before.0, wl.write_calls - before.1);
+            wl.handler_log[idx].violation.get_or_insert(Violation::new("c10_writer_close_wrote", "", d));
+        }
+    }
     if flush {
         let r = poll_fn(|cx| Pin::new(&mut *w).poll_flush(cx)).await;
         if let Err(e) = r {
@@ -558,6 +577,23 @@ async fn handler_body(req: &mut Req<'_>, world: Shared, mode: HandlerMode) -> io
             log_len_at_start: w.log.len(), read_pos_at_start: w.read_pos,
             ..Default::default()
         };
+        // the async request's own accessors agree with what env_iter listed (the history oracle compares that with the model)
+        let mut acc_bad: Option<String> = None;
+        if req.env_len() != inv.env.len() { acc_bad = Some(format!("env_len() = {} but env_iter yields {} entries", req.env_len(), inv.env.len())); }
+        for (k, v) in &inv.env {
+            let low = k.to_ascii_lowercase();
+            for sp in [k.as_str(), low.as_str()] {
+                let name = fastcgi_server::cgi::VarName::new(sp);
+                if req.get_var(name) != Some(&v[..]) || !req.contains_var(name) { acc_bad = Some(format!("get_var/contains_var({sp:?}) disagree with env_iter")); }
+                if req.get_var_str(name) != std::str::from_utf8(v).ok() { acc_bad = Some(format!("get_var_str({sp:?}) disagrees with env_iter")); }
+            }
+        }
+        let absent = fastcgi_server::cgi::VarName::new("__ABSENT_NAME__");
+        if !inv.env.iter().any(|(k, _)| k == "__ABSENT_NAME__") && (req.get_var(absent).is_some() || req.contains_var(absent) || req.get_var_str(absent).is_some()) {
+            acc_bad = Some("an absent variable is reported as present".into());
+        }
+        let mut inv = inv;
+        if let Some(d) = acc_bad { inv.violation = Some(Violation::new("c07_handler_env", "async_accessors", d)); }
         w.handler_log.push(inv);
         let n = w.handler_log.len() as u64;
         w.cx.ev("handler_start", n, u64::from(role));
@@ -840,6 +876,7 @@ pub fn gen_knobs(cx: &mut Ctx, spurious: bool, wire_len: usize) -> Knobs {
         write_pending: cx.ch.one_of(&[0u32, 0, 2, 6]),
         deliver_style: if calm { cx.ch.one_of(&[0u32, 2]) } else { cx.ch.weighted(&[3, 2, 3]) as u32 },
         spurious_polls: if spurious { cx.ch.one_of(&[0u32, 0, 1, 4]) } else { 0 },
+        fresh_wakers: cx.ch.chance(1, 2),
     }
 }
 
@@ -1143,8 +1180,8 @@ pub const F_TRANSPORT: &[&str] = &["short_read", "read_pending_nodata", "read_pe
 pub const F_FLUSH: &[&str] = &["flush_pending", "spurious_child_poll"];
 pub const F_SPURIOUS: &[&str] = &["spurious_poll"];
 pub const F_INJECT: &[&str] = &["read_error", "eof_injected", "write_error", "zero_write"];
-pub const P_BASE: &[&str] = &["buffer_holds_whole_huge_record", "read_filled_buffer", "write_cut_in_header", "write_cut_at_seam", "write_cut_in_padding", "requests_2plus", "buffer_24"];
-pub const P_C07: &[&str] = &["read_abandoned_while_pending", "keep_conn_reuse", "no_keep_conn_close", "handler_left_input_unread"];
+pub const P_BASE: &[&str] = &["buffer_holds_whole_huge_record", "read_filled_buffer", "write_cut_in_header", "write_cut_at_seam", "write_cut_in_padding", "requests_2plus", "buffer_24", "fresh_waker_per_poll"];
+pub const P_C07: &[&str] = &["read_abandoned_while_pending", "keep_conn_reuse", "no_keep_conn_close", "handler_left_input_unread", "long_lived_connection"];
 #[allow(dead_code)]
 pub const D2_FAULTS: &[&str] = &[
     "short_read", "read_pending_nodata", "read_pending_withdata", "short_write", "write_pending", "spurious_poll",
@@ -1205,7 +1242,9 @@ fn check_termination(out: &ConnOutcome, plan: &Plan, oracle_prefix: &str) -> VRe
 pub fn c07(cx: &mut Ctx) -> VResult {
     cx.declare(F_TRANSPORT, P_BASE);
     cx.declare(F_SPURIOUS, P_C07);
-    let o = PlanOpts { max_reqs: 4, noise: cx.ch.pick(4), closed_loop: false, abort: false, small_buf_bias: cx.ch.chance(1, 2), force_keep: false, either_noise: false };
+    // one run in 16 is a long-lived keep-alive connection (5..12 requests): state carried from request to request
+    let max_reqs = if cx.ch.chance(1, 16) { 12 } else { 4 };
+    let o = PlanOpts { max_reqs, noise: cx.ch.pick(4), closed_loop: false, abort: false, small_buf_bias: cx.ch.chance(1, 2), force_keep: false, either_noise: false };
     let plan = gen_plan(cx, &o);
     note_plan(cx, &plan);
     let knobs = gen_knobs(cx, true, plan.wire.len());
@@ -1342,7 +1381,7 @@ pub fn c09(cx: &mut Ctx) -> VResult {
     Ok(())
 }
 
-pub const C10_PROBES: &[&str] = &["failed_write_retried", "write_repolled_with_longer_buffer", "writers_2plus", "write_65535_capped", "zero_length_write", "reply_between_writer_records"];
+pub const C10_PROBES: &[&str] = &["failed_write_retried", "write_repolled_with_longer_buffer", "writers_2plus", "write_65535_capped", "zero_length_write", "reply_between_writer_records", "writer_poll_close"];
 
 /// C10: concurrent writers + reply flushing: complete, non-interleaved records.
 pub fn c10(cx: &mut Ctx) -> VResult {
